@@ -345,7 +345,8 @@ type c02Route struct {
 
 	inside    int64
 	maxInside int64
-	fails     int64 // responses >= 500 that passed the route's breaker
+	fails     int64      // taint: the route's breaker may have recorded a failure (see c02Taint)
+	spareMu   sync.Mutex // spare routes: one request at a time (MaxConns must not interfere)
 }
 
 type c02Run struct {
@@ -512,6 +513,10 @@ func c02NewEnv(tag string, cfg Config, groups []c02Group) (*c02Env, error) {
 		return nil, err
 	}
 	e := &c02Env{tag: tag, cfg: cfg, srv: srv, routes: map[string][]*c02Route{}}
+	// spare routes only ever see non-blocking handlers answering < 500: their
+	// breakers cannot open. Follow-up checks rejected by a tainted route's breaker
+	// are repeated there.
+	groups = append(append([]c02Group{}, groups...), c02Group{Class: "spare", Method: http.MethodGet, N: 2, Timeout: c02LongTimeout})
 	for _, g := range groups {
 		var rs []Route
 		for i := 0; i < g.N; i++ {
@@ -673,18 +678,32 @@ func (c *c02Ctx) violate(sig string, run *c02Run, resp *c02Resp, format string, 
 	c.m.Violate("C02:"+c.obs+":"+sig, c.desc(extra), "%s", d)
 }
 
-// noteOutcome maintains the per-route count of breaker failures.
-func c02NoteOutcome(run *c02Run, resp *c02Resp) {
-	if resp.Err == "" && resp.Status >= 500 && run.entered() > 0 {
-		atomic.AddInt64(&run.route.fails, 1)
+// c02Taint marks a route whose breaker may record a failure from now on. The
+// breaker (BreakerHandler, C01's subject) sits inside the chain and judges by the
+// status *it* saw, which can be >= 500 even when the client sees a committed 2xx
+// (RecoverHandler's superfluous WriteHeader(500) on a route without a timeout
+// handler). Scenarios therefore taint the route *before* issuing anything that
+// panics, blocks past a deadline or answers >= 500. On a tainted route a 503
+// without handler entry is a possible breaker rejection and never a verdict.
+func c02Taint(rt *c02Route) { atomic.AddInt64(&rt.fails, 1) }
+
+func c02TaintFor(rt *c02Route, sc *c02Script) {
+	if sc.Kind != "fast" && sc.Kind != "park" && sc.Kind != "cancel" || sc.model("", len(sc.Steps)).status >= 500 {
+		c02Taint(rt)
 	}
 }
 
-// c02Tolerated: a bare 503 on a route whose breaker has seen failures may be a
-// breaker rejection (C01's subject) — not judged here.
+func c02NoteOutcome(run *c02Run, resp *c02Resp) {
+	if resp.Err != "" || resp.Status >= 500 {
+		c02Taint(run.route)
+	}
+}
+
+// c02Tolerated: a bare 503 on a tainted route may be a breaker rejection (C01's
+// subject) — counted, not judged.
 func c02Tolerated(c *c02Ctx, run *c02Run, resp *c02Resp) bool {
 	if c02IsBareReject(run, resp) && atomic.LoadInt64(&run.route.fails) > 0 {
-		c.m.Count("admission_reject_tolerated", 1)
+		c.m.Count("breaker_rejection_tolerated", 1)
 		return true
 	}
 	return false
